@@ -99,7 +99,7 @@ def _(b, k):
     return Call(f, b.arr(SHAPE, akind(k)), tuple(ms) if form_of(kk) == "tuple" else ms)
 
 
-@entry("tenalg.kronecker", SEQ + ("skip", "reverse"), ALLDT, tenalg=True)
+@entry("tenalg.kronecker", SEQ + ("skip", "reverse", "vectors"), ALLDT, tenalg=True)
 def _(b, k):
     f = tl().tenalg.kronecker
     kk = k.split("@")[0]
@@ -108,10 +108,12 @@ def _(b, k):
         return Call(f, ms, skip_matrix=1)
     if kk == "reverse":
         return Call(f, ms, reverse=True)
+    if kk == "vectors":
+        return Call(f, [b.arr((3,)), b.arr((2,))])
     return Call(f, tuple(ms) if form_of(kk) == "tuple" else ms)
 
 
-@entry("tenalg.khatri_rao", SEQ + ("weights", "mask", "mask_weights", "skip", "skip_mask", "invalid"), ALLDT, tenalg=True)
+@entry("tenalg.khatri_rao", SEQ + ("weights", "mask", "mask_weights", "skip", "skip_mask", "vectors", "two", "invalid"), ALLDT, tenalg=True)
 def _(b, k):
     f = tl().tenalg.khatri_rao
     kk = k.split("@")[0]
@@ -129,14 +131,20 @@ def _(b, k):
         return Call(f, ms, skip_matrix=0, mask=b.mask(SHAPE[1:]))
     if kk == "invalid":
         return Call(f, [b.arr((3, 2)), b.arr((4, 3))]).raises()
+    if kk == "vectors":             # vectors are reshaped to one-column matrices
+        return Call(f, [b.arr((3,)), b.arr((4,)), b.arr((2,))])
+    if kk == "two":
+        return Call(f, ms[:2], weights=w)
     return Call(f, tuple(ms) if form_of(kk) == "tuple" else ms)
 
 
-@entry("tenalg.inner", ARR + ("n_modes",), ALLDT, tenalg=True)
+@entry("tenalg.inner", ARR + ("n_modes", "vectors"), ALLDT, tenalg=True)
 def _(b, k):
     f = tl().tenalg.inner
     if k.split("@")[0] == "n_modes":
         return Call(f, b.arr((3, 4, 2)), b.arr((4, 2, 5)), n_modes=2)
+    if k.split("@")[0] == "vectors":
+        return Call(f, b.arr((5,)), b.arr((5,)))
     return Call(f, b.arr(SHAPE, k), b.arr(SHAPE, k))
 
 
@@ -162,7 +170,7 @@ def _(b, k):
     return Call(f, b.arr((3, 4, 2), k), b.arr((4, 2, 5), k), modes=([1, 2], [0, 1]))
 
 
-@entry("tenalg.unfolding_dot_khatri_rao", FORMS + ("weights", "noweights"), ALLDT, tenalg=True)
+@entry("tenalg.unfolding_dot_khatri_rao", FORMS + ("weights", "noweights", "matrix"), ALLDT, tenalg=True)
 def _(b, k):
     f = tl().tenalg.unfolding_dot_khatri_rao
     kk = k.split("@")[0]
@@ -170,6 +178,8 @@ def _(b, k):
         return Call(f, b.arr(SHAPE), b.cp(SHAPE, RANK, "tuple", "nonunit"), 0)
     if kk == "noweights":
         return Call(f, b.arr(SHAPE), b.cp(SHAPE, RANK, "tuple", "none"), 2)
+    if kk == "matrix":
+        return Call(f, b.arr((4, 3)), b.cp((4, 3), RANK, "tuple", "nonunit"), 0)
     return Call(f, b.arr(SHAPE, akind(k)), b.cp(SHAPE, RANK, form_of(kk), "ones", akind(k)), 1)
 
 
@@ -267,10 +277,14 @@ def _(b, k):
 
 
 # ----------------------------------------------------------------------------- tenalg.proximal
-def _prox(name, params, kinds=ARR, dtypes=FLOATS, shape=(4, 3), nonneg=False):
+def _prox(name, params, kinds=ARR + ("vector", "vector_sview", "column"), dtypes=FLOATS, shape=(4, 3), nonneg=False):
     @entry("proximal." + name, kinds, dtypes)
     def _b(b, k, name=name, params=params, shape=shape, nonneg=nonneg):
         import tensorly.tenalg.proximal as P
+        if k.startswith("vector"):          # 1-D input: several operators reshape it (a view) before working
+            return Call(getattr(P, name), b.arr((5,), akind(k), nonneg), *params)
+        if k == "column":
+            return Call(getattr(P, name), b.arr((5, 1), "fresh", nonneg), *params)
         return Call(getattr(P, name), b.arr(shape, k, nonneg), *params)
     return _b
 
@@ -285,8 +299,8 @@ _prox("soft_sparsity_prox", (0.8,))
 _prox("simplex_prox", (1.0,))
 _prox("hard_thresholding", (5,))
 _prox("soft_thresholding", (0.3,))
-_prox("svd_thresholding", (0.4,))
-_prox("procrustes", ())
+_prox("svd_thresholding", (0.4,), kinds=ARR)
+_prox("procrustes", (), kinds=ARR)
 
 PROX_KW = [("non_negative", True), ("l1_reg", 0.2), ("l2_reg", 0.2), ("l2_square_reg", 0.2), ("unimodality", True),
            ("normalize", True), ("simplex", 1.0), ("normalized_sparsity", 2), ("soft_sparsity", 0.8),
@@ -355,6 +369,17 @@ def _simple_cp(name, extra=(), out=None, kinds=FORMS + CPW, dtypes=ALLDT):
 
 
 _simple_cp("cp_to_tensor")
+
+
+@entry("cp_tensor.cp_to_tensor_shapes", ("matrix", "single_factor", "rank1_vectors"), ALLDT)
+def _(b, k):
+    if k == "matrix":
+        return Call(tl().cp_to_tensor, b.cp((4, 3), RANK, "tuple", "nonunit"))
+    if k == "single_factor":
+        return Call(tl().cp_to_tensor, b.cp((4,), RANK, "tuple", "nonunit"))
+    return Call(tl().cp_to_tensor, (np.ones(1, dtype=b.dtype), [b.arr((3,)), b.arr((4,)), b.arr((2,))])).raises()   # 1-D factors pass validation but not the conversion
+
+
 _simple_cp("cp_to_unfolded", (1,))
 _simple_cp("cp_to_vec")
 _simple_cp("cp_norm")
